@@ -1,6 +1,6 @@
 (* C15 - an independent reference VT100 for the subset named by the property: printable text with
    autowrap, CR LF BS, cursor addressing (CUP CUU CUD CUF CUB), erase in line / display, insert and
-   delete of characters and lines, the scrolling region (DECSTBM), reverse index and SGR colours.
+   delete of characters and lines, the scrolling region (DECSTBM), origin mode (DECOM), reverse index and SGR colours.
    Written from the VT100/VT102 behaviour (DEC user guides, ECMA-48), NOT from urwid/vterm.py; it
    interprets abstract commands, not bytes.  No proofs here.
 
@@ -27,8 +27,12 @@ Inductive cmd :=
   | CDsr (n : Z)                     (* CSI n n : status (5) / cursor position (6) query; the screen is unchanged *)
   | CHt                              (* HT: to the next tab stop (every 8 columns), nothing is written *)
   | CSo | CSi                        (* SO / SI: G1 / G0 becomes the active character set *)
-  | CDesig (g c : Z).                (* ESC ( c / ESC ) c : designate G0 (g = 0) / G1 (g = 1); c = "0" (48) DEC special
+  | CDesig (g c : Z)                 (* ESC ( c / ESC ) c : designate G0 (g = 0) / G1 (g = 1); c = "0" (48) DEC special
                                         graphics, "B" (66) ASCII *)
+  | CVpa (r : Z)                     (* CSI r d : line position absolute, the column stays *)
+  | CDecom (on : bool).              (* CSI ? 6 h / CSI ? 6 l : origin mode.  Set: line numbers of CUP / VPA / CPR count from
+                                        the top margin and the cursor cannot leave the margins; the cursor goes to the new
+                                        home position on set and on reset *)
 
 Record rattr := mkRA { r_fg : oz; r_bg : oz; r_bold : bool; r_ul : bool; r_blink : bool; r_rev : bool }.
 (* a cell: character, and (rendition, character set: 0 ASCII / 1 DEC special graphics) or None = erased cell,
@@ -42,25 +46,26 @@ Record vt := mkVT { v_w : Z; v_h : Z; v_g : list rrow; v_x : Z; v_y : Z; v_pend 
                     v_sb : list rrow;            (* lines scrolled off the top of the screen, oldest first *)
                     v_sbknown : bool;            (* false once a region not starting at row 0 scrolled *)
                     v_replies : list reply;      (* answers sent so far, oldest first *)
-                    v_cs : Z * Z * Z }.          (* (G0, G1, shift): sets 0 ASCII / 1 graphics / -1 not yet designated (power-up
+                    v_cs : Z * Z * Z;            (* (G0, G1, shift): sets 0 ASCII / 1 graphics / -1 not yet designated (power-up
                                                     G1 differs between terminals); shift 0 = G0 active, 1 = G1 *)
+                    v_origin : bool }.           (* DECOM *)
 
 Definition ra0 : rattr := mkRA None None false false false false.
 Definition blank : rcell := (32, None).
 Definition blanks (n : Z) : rrow := repeat blank (Z.to_nat n).
 Definition blank_rows (w n : Z) : list rrow := repeat (blanks w) (Z.to_nat n).
 Definition vt_init (w h : Z) : vt :=
-  mkVT w h (repeat (repeat (32, Some (ra0, 0)) (Z.to_nat w)) (Z.to_nat h)) 0 0 false 0 (h - 1) ra0 [] true [] (0, -1, 0).
+  mkVT w h (repeat (repeat (32, Some (ra0, 0)) (Z.to_nat w)) (Z.to_nat h)) 0 0 false 0 (h - 1) ra0 [] true [] (0, -1, 0) false.
 
 Definition sub {A} (l : list A) (a b : Z) : list A := takez (b - a) (dropz a l).      (* l[a:b], 0 <= a *)
 Definition nth_row (g : list rrow) (y : Z) : rrow := match nthz g y with Some r => r | None => [] end.
 Definition set_row (g : list rrow) (y : Z) (r : rrow) : list rrow := takez y g ++ r :: dropz (y + 1) g.
 Definition with_g (v : vt) (g : list rrow) : vt :=
-  mkVT (v_w v) (v_h v) g (v_x v) (v_y v) (v_pend v) (v_top v) (v_bot v) (v_attr v) (v_sb v) (v_sbknown v) (v_replies v) (v_cs v).
+  mkVT (v_w v) (v_h v) g (v_x v) (v_y v) (v_pend v) (v_top v) (v_bot v) (v_attr v) (v_sb v) (v_sbknown v) (v_replies v) (v_cs v) (v_origin v).
 Definition with_xy (v : vt) (x y : Z) (p : bool) : vt :=
-  mkVT (v_w v) (v_h v) (v_g v) x y p (v_top v) (v_bot v) (v_attr v) (v_sb v) (v_sbknown v) (v_replies v) (v_cs v).
+  mkVT (v_w v) (v_h v) (v_g v) x y p (v_top v) (v_bot v) (v_attr v) (v_sb v) (v_sbknown v) (v_replies v) (v_cs v) (v_origin v).
 Definition with_cs (v : vt) (c : Z * Z * Z) : vt :=
-  mkVT (v_w v) (v_h v) (v_g v) (v_x v) (v_y v) (v_pend v) (v_top v) (v_bot v) (v_attr v) (v_sb v) (v_sbknown v) (v_replies v) c.
+  mkVT (v_w v) (v_h v) (v_g v) (v_x v) (v_y v) (v_pend v) (v_top v) (v_bot v) (v_attr v) (v_sb v) (v_sbknown v) (v_replies v) c (v_origin v).
 (* the character set in which a printable character is shown now *)
 Definition cur_cs (v : vt) : Z := let '(g0, g1, sh) := v_cs v in if sh =? 0 then g0 else g1.
 Definition set_of (c : Z) : Z := if c =? 48 then 1 else 0.
@@ -72,7 +77,7 @@ Definition scroll_up (v : vt) : vt :=
   let g' := takez (v_top v) g ++ sub g (v_top v + 1) (v_bot v + 1) ++ blanks (v_w v) :: dropz (v_bot v + 1) g in
   mkVT (v_w v) (v_h v) g' (v_x v) (v_y v) (v_pend v) (v_top v) (v_bot v) (v_attr v)
        (if v_top v =? 0 then v_sb v ++ [nth_row g 0] else v_sb v)
-       (v_sbknown v && (v_top v =? 0)) (v_replies v) (v_cs v).
+       (v_sbknown v && (v_top v =? 0)) (v_replies v) (v_cs v) (v_origin v).
 Definition scroll_down (v : vt) : vt :=
   let g := v_g v in
   with_g v (takez (v_top v) g ++ blanks (v_w v) :: sub g (v_top v) (v_bot v) ++ dropz (v_bot v + 1) g).
@@ -127,6 +132,10 @@ Fixpoint sgr (l : list Z) (a : rattr) : rattr :=
       else sgr r (sgr1 n a)
   end.
 
+(* line number r >= 1 of an addressing command: counted from the top margin and kept inside the margins in origin mode *)
+Definition line (v : vt) (r : Z) : Z :=
+  if v_origin v then Z.min (v_top v + r - 1) (v_bot v) else Z.min r (v_h v) - 1.
+
 Definition exec (v : vt) (c : cmd) : vt :=
   let w := v_w v in let h := v_h v in let x := v_x v in let y := v_y v in
   match c with
@@ -141,7 +150,8 @@ Definition exec (v : vt) (c : cmd) : vt :=
   | CLf => index v
   | CBs => with_xy v (if 0 <? x then x - 1 else x) y false
   | CRi => if y =? v_top v then scroll_down v else if 0 <? y then with_xy v x (y - 1) (v_pend v) else v
-  | CCup r c => with_xy v (Z.min (one c) w - 1) (Z.min (one r) h - 1) false
+  | CCup r c => with_xy v (Z.min (one c) w - 1) (line v (one r)) false
+  | CVpa r => with_xy v x (line v (one r)) false
   | CCuu n => with_xy v x (Z.max (if v_top v <=? y then v_top v else 0) (y - one n)) false
   | CCud n => with_xy v x (Z.min (if y <=? v_bot v then v_bot v else h - 1) (y + one n)) false
   | CCuf n => with_xy v (Z.min (w - 1) (x + one n)) y false
@@ -182,18 +192,24 @@ Definition exec (v : vt) (c : cmd) : vt :=
       let t := one t in
       let b := if b <=? 0 then h else b in
       if (t <? b) && (b <=? h)
-      then mkVT w h (v_g v) 0 0 false (t - 1) (b - 1) (v_attr v) (v_sb v) (v_sbknown v) (v_replies v) (v_cs v)
+      then mkVT w h (v_g v) 0 (if v_origin v then t - 1 else 0) false (t - 1) (b - 1) (v_attr v) (v_sb v) (v_sbknown v)
+                (v_replies v) (v_cs v) (v_origin v)
       else v
   | CSgr l =>
       mkVT w h (v_g v) x y (v_pend v) (v_top v) (v_bot v) (sgr (match l with [] => [0] | _ => l end) (v_attr v))
-           (v_sb v) (v_sbknown v) (v_replies v) (v_cs v)
+           (v_sb v) (v_sbknown v) (v_replies v) (v_cs v) (v_origin v)
   | CDsr n =>
       mkVT w h (v_g v) x y (v_pend v) (v_top v) (v_bot v) (v_attr v) (v_sb v) (v_sbknown v)
-           (v_replies v ++ (if n =? 5 then [RStatusOk] else if n =? 6 then [RCursor (y + 1) (x + 1)] else [])) (v_cs v)
+           (v_replies v ++ (if n =? 5 then [RStatusOk]
+                            else if n =? 6 then [RCursor ((if v_origin v then y - v_top v else y) + 1) (x + 1)] else []))
+           (v_cs v) (v_origin v)
   | CHt => with_xy v (Z.min (w - 1) ((x / 8 + 1) * 8)) y false
   | CSo => let '(g0, g1, _) := v_cs v in with_cs v (g0, g1, 1)
   | CSi => let '(g0, g1, _) := v_cs v in with_cs v (g0, g1, 0)
   | CDesig g c => let '(g0, g1, sh) := v_cs v in if g =? 0 then with_cs v (set_of c, g1, sh) else with_cs v (g0, set_of c, sh)
+  | CDecom on =>
+      mkVT w h (v_g v) 0 (if on then v_top v else 0) false (v_top v) (v_bot v) (v_attr v) (v_sb v) (v_sbknown v)
+           (v_replies v) (v_cs v) on
   end.
 
 Definition run_ref (v : vt) (cs : list cmd) : vt := fold_left exec cs v.
@@ -204,7 +220,8 @@ Definition ambiguous (v : vt) (c : cmd) : bool :=
   match c with
   | CLf | CRi | CHt => v_pend v
   | CSo => let '(_, g1, _) := v_cs v in g1 <? 0        (* shifting to a G1 that was never designated *)
-  | CCuu n => partial && (v_top v <=? v_y v) && (v_y v - one n <? v_top v)
-  | CCud n => partial && (v_y v <=? v_bot v) && (v_bot v <? v_y v + one n)
+  (* in origin mode the cursor is inside the margins and stops at them, on every terminal *)
+  | CCuu n => negb (v_origin v) && partial && (v_top v <=? v_y v) && (v_y v - one n <? v_top v)
+  | CCud n => negb (v_origin v) && partial && (v_y v <=? v_bot v) && (v_bot v <? v_y v + one n)
   | _ => false
   end.
